@@ -53,6 +53,9 @@ structure Opts where
   fixCommonMistakes : Bool := true
   quoted : Bool := false
   queryItemFilter : QueryItemFilter := .none
+  /-- undocumented `lowercase` (set by `fingerprint_url` only): what has just been unescaped is
+  lower-cased before the case-sensitive steps look at it -/
+  lowercase : Bool := false
   deriving DecidableEq, Repr
 
 /-! ## before parsing (lines 244–255) -/
@@ -89,13 +92,15 @@ def fixCommonQueryMistakes (q : Str) : Str := fixMistakesFrom q 0
 
 /-- lines 296–304: unescape, remember a trailing slash, `normpath`, put the slash back when
 it is to be kept -/
-def resolvePath (stripTrailingSlash : Bool) (path : Str) : Str :=
-  let p := unquotePath path
+def resolveUnquoted (stripTrailingSlash : Bool) (p : Str) : Str :=
   if p.isEmpty then p
   else
     let trailing := endsWith p ['/'] && decide (p.length > 1)
     let q := normpath p
     if trailing && !stripTrailingSlash then q ++ ['/'] else q
+
+def resolvePath (stripTrailingSlash : Bool) (path : Str) : Str :=
+  resolveUnquoted stripTrailingSlash (unquotePath path)
 
 /-- Python's `$` (no MULTILINE): at the end, or before a final newline -/
 def atDollar (s : Str) : Bool := s.isEmpty || s == ['\n']
@@ -234,7 +239,9 @@ def sortQsl : List QItem → List QItem
 def filterQuery (o : Opts) (hostname : Option Str) (query : Str) : List QItem :=
   if query.isEmpty then []
   else
-    let kept := (unquoteQsl (safeQslIter query)).filter
+    let items := unquoteQsl (safeQslIter query)
+    let items := if o.lowercase then items.map (fun it => (lower it.1, it.2.map lower)) else items
+    let kept := items.filter
       (fun it => !shouldStripQueryItem o.normalizeAmp o.queryItemFilter (domainFilter hostname) it)
     if o.sortQuery then sortQsl kept else kept
 
@@ -315,11 +322,15 @@ structure Comps where
 
 /-- the raw query after `fix_common_query_mistakes` (lines 283–284) -/
 def fixedQuery (o : Opts) (p : Parsed) : Str :=
-  if o.fixCommonMistakes && !p.query.isEmpty then fixCommonQueryMistakes p.query else p.query
+  if o.fixCommonMistakes && !p.query.isEmpty then
+    fixCommonQueryMistakes (safeSerializeQsl (unquoteQsl (safeQslIter p.query)))
+  else p.query
 
 /-- the path through lines 296–320 -/
 def pathSteps (o : Opts) (path : Str) : Str :=
-  let p := resolvePath o.stripTrailingSlash path
+  let p := unquotePath path
+  let p := if o.lowercase then lower p else p
+  let p := resolveUnquoted o.stripTrailingSlash p
   let p := if o.normalizeAmp then ampSuffixSub p else p
   if o.stripIndex then stripIndex p else p
 
@@ -334,8 +345,11 @@ def normPath (o : Opts) (path : Str) (fragment query : Str) : Str :=
 cleaned string -/
 def normComps (puny : Str → Str) (o : Opts) (hasProto : Bool) (p : Parsed) : Comps :=
   let query := fixedQuery o p
-  let fragment := normFragment o.stripFragment (unquoteFragment p.fragment)
-  let qsl := filterQuery o p.hostname query
+  let fragment := unquoteFragment p.fragment
+  let fragment := normFragment o.stripFragment (if o.lowercase then lower fragment else fragment)
+  -- the per-domain filter looks at the decoded, lower-cased hostname (lines 296–297)
+  let qsl := filterQuery o
+    (p.hostname.map fun h => if h.isEmpty then h else lower (decodePunycodeHostname puny h)) query
   let qsl := unquoteQsl qsl
   { scheme := if o.stripProtocol || !hasProto then [] else p.scheme
     user := if o.stripAuthentication then none else canonOpt o.quoted unquoteAuthItem p.username
@@ -356,7 +370,8 @@ def normParts (puny : Str → Str) (o : Opts) (hasProto : Bool) (p : Parsed) : S
 
 /-- lines 433–436 -/
 def finalString (o : Opts) (hasProto : Bool) (r : Split) : Str :=
-  if o.stripProtocol || !hasProto then (urlunsplit r).drop 2 else urlunsplit r
+  let s := urlunsplit r
+  if (o.stripProtocol || !hasProto) && startsWith s ['/', '/'] then s.drop 2 else s
 
 /-- the string that is parsed: redirection, cleaning, `http://`, platform rewriting -/
 def prepared (platform : Str → Str) (inferRedirection : Bool) (url : Str) : Str × Bool :=
@@ -385,9 +400,9 @@ def normalizeUrl (puny : Str → Str) (parse : Str → Option Parsed) (platform 
 /-- `normalize_hostname(hostname, normalize_amp)` -/
 def normalizeHostname (puny : Str → Str) (normalizeAmp : Bool) (hostname : Str) : Str :=
   let h := stripControl (lower (strip hostname))
+  let h := lower (decodePunycodeHostname puny h)
   let h := subdomainSub normalizeAmp h
-  let h := if normalizeAmp && startsWith h ampDash then h.drop 4 else h
-  decodePunycodeHostname puny h
+  if normalizeAmp then stripAmpPrefix puny h else h
 
 /-- `get_normalized_hostname(url, normalize_amp, infer_redirection)`; `hostOf s` is
 `urlsplit(s).hostname` (`none` for `ValueError` and for `None`) -/
